@@ -29,6 +29,15 @@ pub const CAST: [Id; 24] = [
     1, 2, 3, 4, 5, 6, 7, 8, 9, 100, 101, 102, 103, 104, 105, 106, 107, 108, 109, 201, 202, 203, 204,
     205,
 ];
+/// the crowd: 45 more holder addresses (used by the `crowd` generator profile), observed like the cast
+pub const CROWD_FIRST: Id = 301;
+pub const CROWD_LEN: Id = 45;
+/// cast followed by the crowd: every address whose balances, holder records and requests are observed
+pub fn cast_all() -> Vec<Id> {
+    let mut v: Vec<Id> = CAST.to_vec();
+    v.extend(CROWD_FIRST..CROWD_FIRST + CROWD_LEN);
+    v
+}
 pub const D: u128 = 1_000_000_000_000_000_000;
 
 pub fn name(id: Id) -> String {
@@ -652,6 +661,46 @@ impl Chain {
             Ok(r) => r,
             Err(_) => Err("panic in reply".into()),
         }
+    }
+
+    /// a contract upgrade to the same code: call the contract's `migrate` entry point (when its
+    /// source defines one — build.rs) with the empty migrate message and run what it emits
+    #[allow(unused_variables, unused_mut)]
+    pub fn run_migrate(&mut self, target: Id) -> Result<(), String> {
+        let api = MockApi::default();
+        let env = self.env(target);
+        let mut store = match self.stores.remove(&target) {
+            Some(s) => s,
+            None => return Err("contract not instantiated".into()),
+        };
+        let msg = Binary::from(br#"{"reward_dispatcher_contract":"a0104","validators_registry_contract":"a0105","stsei_token_contract":"a0102","rewards_contract":"a0103"}"#.to_vec());
+        let result = {
+            let querier = ChainQuerier { chain: &*self, from: target };
+            let deps: DepsMut<cosmwasm_std::Empty> = DepsMut { storage: &mut store, api: &api, querier: QuerierWrapper::new(&querier) };
+            catch_unwind(AssertUnwindSafe(|| -> Result<Response, String> {
+                match target {
+                    #[cfg(has_migrate_hub)]
+                    HUB => basset_sei_hub::contract::migrate(deps, env, from_json(&msg).map_err(|e| e.to_string())?).map_err(|e| e.to_string()),
+                    #[cfg(has_migrate_bsei)]
+                    BSEI => basset_sei_token_bsei::contract::migrate(deps, env, from_json(&msg).map_err(|e| e.to_string())?).map_err(|e| e.to_string()),
+                    #[cfg(has_migrate_stsei)]
+                    STSEI => basset_sei_token_stsei::contract::migrate(deps, env, from_json(&msg).map_err(|e| e.to_string())?).map_err(|e| e.to_string()),
+                    #[cfg(has_migrate_reward)]
+                    REWARD => basset_sei_reward::contract::migrate(deps, env, from_json(&msg).map_err(|e| e.to_string())?).map_err(|e| e.to_string()),
+                    #[cfg(has_migrate_disp)]
+                    DISP => basset_sei_rewards_dispatcher::contract::migrate(deps, env, from_json(&msg).map_err(|e| e.to_string())?).map_err(|e| e.to_string()),
+                    #[cfg(has_migrate_reg)]
+                    REG => basset_sei_validators_registry::contract::migrate(deps, env, from_json(&msg).map_err(|e| e.to_string())?).map_err(|e| e.to_string()),
+                    _ => Err("no migrate entry point".into()),
+                }
+            }))
+        };
+        self.stores.insert(target, store);
+        let resp = match result {
+            Ok(r) => r?,
+            Err(_) => return Err("panic in migrate".into()),
+        };
+        self.exec_subs(target, resp.messages)
     }
 
     fn exec_cosmos(&mut self, sender: Id, msg: CosmosMsg) -> Result<(), String> {
